@@ -490,12 +490,20 @@ inductive Arg where
   | num (x : FV)
   | obj (x : FV)
   | thrower
+  | mut (x : FV) (m : FV)      -- valueOf logs, calls setTime(m) on the SAME Date object, returns x
 deriving DecidableEq, Repr
 
 def Arg.val? : Arg → Option FV
-  | .num x => some x | .obj x => some x | .thrower => none
+  | .num x => some x | .obj x => some x | .thrower => none | .mut x _ => some x
 def Arg.logs : Arg → Bool
   | .num _ => false | _ => true
+
+/-- the argument of the last re-entrant setTime that runs during the conversions (they stop at a throwing valueOf) -/
+def lastMut : List Arg → Option FV
+  | [] => none
+  | .thrower :: _ => none
+  | .mut _ m :: rest => (lastMut rest).orElse (fun _ => some m)
+  | _ :: rest => lastMut rest
 
 /-- how a call ends: a return value or the exception of a throwing valueOf -/
 inductive Outcome where
@@ -517,11 +525,41 @@ def convArgs (as : List Arg) (i : Nat) : Conv :=
       | (l, none) => (lg ++ l, none)
       | (l, some vs) => (lg ++ l, some (x :: vs))
 
-/-- a setter called with scripted arguments: (object state, outcome, log of valueOf calls) -/
+/-- the object as the re-entrant setTime calls of the valueOfs left it -/
+def curAfter (d : DateObj) (as : List Arg) : DateObj :=
+  match lastMut as with
+  | none => d
+  | some m => d.set m
+
+/-- a setter called with scripted arguments: (object state, outcome, log of valueOf calls).
+    `date` is read at entry, before the conversions; a re-entrant setTime(m) from a valueOf writes the object
+    (`cur`); the outer call then computes from the value read at entry and stores its result over it — except on
+    the early return for an invalid date, which stores nothing. -/
 def setUTCS (k : Setter) (d : DateObj) (args : List Arg) : DateObj × Outcome × List Nat :=
-  match convArgs (args.take k.limit) 0 with
-  | (l, none) => (d, .threw, l)                       -- nothing was written to the object yet
-  | (l, some vs) => let (d', r) := setUTC k d vs; (d', .ret r, l)
+  let as := args.take k.limit
+  let cur := curAfter d as
+  match convArgs as 0 with
+  | (l, none) => (cur, .threw, l)
+  | (l, some vs) =>
+    if k ≠ .time ∧ k ≠ .year ∧ d.isNaN then (cur, .ret none, l)
+    else let (d', r) := setUTC k d vs; (d', .ret r, l)
+
+/-- the same for the local setters -/
+def setLocalS (z : Zone) (k : LSetter) (d : DateObj) (args : List Arg) : DateObj × Outcome × List Nat :=
+  let as := args.take k.limit
+  let cur := curAfter d as
+  match convArgs as 0 with
+  | (l, none) => (cur, .threw, l)
+  | (l, some vs) =>
+    if k ≠ .year ∧ k ≠ .year2 ∧ d.isNaN then (cur, .ret none, l)
+    else let (d', r) := setLocal z k d vs; (d', .ret r, l)
+
+def runLocalSettersS (z : Zone) (d : DateObj) : List (LSetter × List Arg) → DateObj × List (Outcome × List Nat)
+  | [] => (d, [])
+  | (k, a) :: rest =>
+    let (d', o, l) := setLocalS z k d a
+    let (fin, rs) := runLocalSettersS z d' rest
+    (fin, (o, l) :: rs)
 
 def runSettersS (d : DateObj) : List (Setter × List Arg) → DateObj × List (Outcome × List Nat)
   | [] => (d, [])
